@@ -32,6 +32,10 @@ func slSinkRule(c *Ctx, owner, field, breaks string) {
 		name := fnLabel(fn) + ":store(" + owner + "." + field + ")"
 		ok, why := e.SL(st.Val, st)
 		if ok {
+			if imm, whyI := e.Immutable(st.Val); !imm {
+				c.bad(name, P.ipos(st), "the value stored into "+owner+"."+field+" passes the single-line check but is not an immutable string ("+whyI+"): its bytes can be overwritten later, so the stored value can come to contain CR/LF; "+breaks)
+				continue
+			}
 			c.ok(name, P.ipos(st), why)
 		} else {
 			c.bad(name, P.ipos(st), "a value that is not provably single-line is stored into "+owner+"."+field+" ("+why+"): "+breaks)
